@@ -1,5 +1,6 @@
 import DispatchVerif.Core.ApplyP
 import DispatchVerif.Core.ApplyLive
+import DispatchVerif.Core.ApplySerial
 /-! # C10 — dispatch_apply invokes every index exactly once and then returns
 
 `ApplyP` models the shared-counter core of `src/apply.c` (`_dispatch_apply_invoke2`): every participating thread (the
@@ -42,5 +43,17 @@ theorem quiescent_returned {n : Nat} {c : Tid} {s : St} (h : Reachable n c s) (h
     (hent : s.pcs c ≠ .idle) (hstuck : ∀ t, s.pcs t ≠ .idle → step n c s.sh t (s.pcs t) = []) :
     s.pcs c = .returned :=
   ApplyP.quiescent_returned h hn hent hstuck
+
+/-- **the serial path** (`_dispatch_apply_serial`: `size_t idx = 0; do { f(idx) } while (++idx < iter);`) invokes
+    0, 1, …, iter-1 in that order, each once, and ends after exactly iter passes - for every count the index word can
+    hold -/
+theorem serial_in_order {bits iter : Nat} (h0 : 0 < iter) (hi : iter < 2 ^ bits) :
+    ApplySerial.serialLoop bits iter iter 0 [] = some (List.range iter) :=
+  ApplySerial.serial_exact h0 hi
+
+/-- and the hypothesis `iter < 2 ^ bits` is what makes it so: an index word narrower than the count never ends the loop -/
+theorem serial_narrow_index_repeats :
+    ApplySerial.serialLoop 2 5 5 0 [] = none ∧ ApplySerial.serialLoop 2 5 40 0 [] = none :=
+  ApplySerial.narrow_index_repeats
 
 end C10
